@@ -481,7 +481,7 @@ impl Prop for C09 {
 					Err(_) => return OpRes::Skipped("no address".into()),
 				};
 				let mut r = SimRng::new(seed ^ 0xe2c);
-				let plaintext: Vec<u8> = match r.below(9) {
+				let plaintext: Vec<u8> = match r.below(12) {
 					0 => vec![],
 					1 => { let k = 1 + r.below(3) as usize; r.bytes(k) },
 					2 => {
@@ -508,6 +508,15 @@ impl Prop for C09 {
 						let mut v = (meta.len() as u32).to_be_bytes().to_vec();
 						v.extend(meta);
 						v.extend(r.bytes(20));
+						v
+					}
+					9 | 10 | 11 => {
+						// metadata length right around what actually follows the prefix
+						let k = r.below(24) as usize;
+						let delta = *r.pick(&[-2i64, -1, 0, 1, 2, 3, 4, 5, 8]);
+						let l = std::cmp::max(0, k as i64 + delta) as u32;
+						let mut v = l.to_be_bytes().to_vec();
+						v.extend(r.bytes(k));
 						v
 					}
 					4 => {
